@@ -614,6 +614,34 @@ pub fn build_c17(quick: bool) -> Vec<Scenario> {
         }
         v.push(Scenario::new(p, "unix_stream", format!("unix.2conn.CC.len5.w{}", w), Arc::new(move |e| unix_stream(e, w, 'C', 'C', 5, 0, 4, false, 2))));
         v.push(Scenario::new(p, "tcp", format!("tcp.CC.len7.buf3.w{}", w), Arc::new(move |e| tcp_loopback(e, w, 7, 0, 3, false))));
+        if w == 2 {
+            // the listener on the selector of the other worker (one more descriptor open shifts fd % workers): its
+            // readiness can be reported while the acceptor is between two steps of accept()
+            v.push(
+                Scenario::new(
+                    p,
+                    "tcp",
+                    "tcp.CC.len7.buf3.fdshift1.w2",
+                    Arc::new(move |e| {
+                        let _ = unsafe { libc::dup(0) };
+                        tcp_loopback(e, 2, 7, 0, 3, false)
+                    }),
+                )
+                .bound(2),
+            );
+            v.push(
+                Scenario::new(
+                    p,
+                    "tcp",
+                    "tcp.thread_client.len7.chunk2.fdshift1.w2",
+                    Arc::new(move |e| {
+                        let _ = unsafe { libc::dup(0) };
+                        tcp_loopback(e, 2, 7, 2, 64, true)
+                    }),
+                )
+                .bound(2),
+            );
+        }
         v.push(Scenario::new(p, "unix_clone", format!("unix.try_clone.two_writers.reader_switches_handle.w{}", w), Arc::new(move |e| unix_clone(e, w))));
         // a connection is dropped while another one is created: descriptor numbers are reused at once
         v.push(Scenario::new(p, "unix_fd_reuse", format!("unix.fd_reuse.drop_T.new_CC.w{}", w), Arc::new(move |e| unix_fd_reuse(e, w, 'T', 'C', false))));
@@ -637,7 +665,7 @@ pub fn build_c17(quick: bool) -> Vec<Scenario> {
     v.into_iter()
         .map(|s| {
             // the spurious wake-up is one deviation, the window it has to hit a second one
-            let deep = s.name.ends_with("spurious_park.w1");
+            let deep = s.name.ends_with("spurious_park.w1") || s.name.contains(".fdshift1.") && s.name.starts_with("tcp.");
             let s = s.tier(quick);
             if deep && s.bound < 2 {
                 s.bound(2)
